@@ -535,10 +535,10 @@ func c11SortKeys(r *c11Result, sql string) []string {
 func init() {
 	partitionings := [][]string{nil, {"x"}, {"y"}, {"x", "y"}}
 	fw.Register(&fw.Prop{
-		ID:    "C11",
-		Level: "translation_validation",
-		Par:   16,
-		Rule: "programs: the full product SELECT {*, a, 'a, b', a + b AS t, AVG(a) AS av, _} × WHERE {none, x = 1, two string literals containing SQL keywords, IN-subquery} × GROUP BY {none, *, x, y, 'x, y', CONCAT expression, x with period(2s), _ with STRIDE(4s)} × CROSSTAB {none, CROSSTAB(y), CROSSTABT(y)} × HAVING {none, selected, unselected field} × ORDER {none, _time, a DESC} × LIMIT {none, 1, '1, 2'} × FROM {table, subquery, subquery with ORDER BY} (58 320 SQL texts; quick: every 12th) × partition keys {none, x, y, xy} × N in 1..6 × 3 row sets; each program is planned with and without QueryCluster by the real planner over mock tables; the cluster plan runs against partitions split by the murmur3 rule; oracle: same fields and rows as the local plan over the union (order under ORDER BY, any n rows for a bare LIMIT) and, for whole-query pushdown, output groups of different partitions disjoint; non-trivial = program with rows and N > 1",
+		ID:          "C11",
+		Level:       "translation_validation",
+		Par:         16,
+		Rule:        "programs: the full product SELECT {*, a, 'a, b', a + b AS t, AVG(a) AS av, _} × WHERE {none, x = 1, two string literals containing SQL keywords, IN-subquery} × GROUP BY {none, *, x, y, 'x, y', CONCAT expression, x with period(2s), _ with STRIDE(4s)} × CROSSTAB {none, CROSSTAB(y), CROSSTABT(y)} × HAVING {none, selected, unselected field} × ORDER {none, _time, a DESC} × LIMIT {none, 1, '1, 2'} × FROM {table, subquery, subquery with ORDER BY} (58 320 SQL texts; quick: every 12th) × partition keys {none, x, y, xy} × N in 1..6 × 3 row sets; each program is planned with and without QueryCluster by the real planner over mock tables; the cluster plan runs against partitions split by the murmur3 rule; oracle: same fields and rows as the local plan over the union (order under ORDER BY, any n rows for a bare LIMIT) and, for whole-query pushdown, output groups of different partitions disjoint; non-trivial = program with rows and N > 1",
 		Assumptions: []string{"mock QueryCluster plans the pushed SQL per partition like DB.queryCluster does (fields of the first partition announced)", "programs the local planner rejects are counted, not validated"},
 		Shards:      func(tier string) int { return 16 },
 		Budget:      func(tier string) time.Duration { return 40 * time.Minute },
